@@ -1,6 +1,7 @@
 package refcodec
 
 import (
+	"fmt"
 	"math/rand"
 )
 
@@ -11,9 +12,86 @@ var ExtraKinds = []string{"zero", "byte", "short", "int", "long", "float", "doub
 	// wide rather than deep: more sibling containers than any nesting bound
 	"list-1500-lists", "list-1500-maps", "list-1500-structs", "map-1500-lists"}
 
+// DeepKinds: unknown fields nested far deeper than any schema goes (N containers inside one another,
+// the innermost holding a struct of every kind and a map whose value sits under tag 1, so that a
+// reader that loses its place inside lands on plausible fields).
+var DeepKinds = []string{"list-deep-900", "map-deep-900", "struct-deep-900", "list-deep-1200", "map-deep-1200", "struct-deep-1200", "mixed-deep-1200"}
+
+func deepField(kind string, tag, depth int, r *rand.Rand) []byte {
+	inner := ExtraField("struct-all-kinds", 0, r)
+	var m []byte
+	m = AppendHead(m, TMap, 1)
+	m = AppendInt(m, 1, 0)
+	m = AppendInt(m, 1, 0)
+	m = AppendInt(m, 99, 1)
+	// built inside out
+	cur := inner // an element under tag 0
+	for d := 0; d < depth; d++ {
+		k := kind
+		if kind == "mixed" {
+			k = []string{"list", "map", "struct"}[d%3]
+		}
+		t := 0
+		if d == depth-1 {
+			t = tag
+		}
+		var b []byte
+		switch k {
+		case "list":
+			b = AppendHead(b, TList, t)
+			if d == 0 {
+				b = AppendInt(b, 2, 0)
+				b = append(b, cur...)
+				b = append(b, Reencode(nil, mustOne(m), 0)...)
+			} else {
+				b = AppendInt(b, 1, 0)
+				b = append(b, cur...)
+			}
+		case "map":
+			b = AppendHead(b, TMap, t)
+			b = AppendInt(b, 1, 0)
+			b = AppendInt(b, int64(d), 0) // key
+			b = append(b, retag(cur, 1)...)
+		default:
+			b = AppendHead(b, TStructBegin, t)
+			b = append(b, cur...)
+			if d == 0 {
+				b = append(b, m...)
+			}
+			b = AppendHead(b, TStructEnd, 0)
+		}
+		cur = b
+	}
+	return cur
+}
+
+func mustOne(b []byte) *Node {
+	n, err := ParseOne(b)
+	if err != nil {
+		panic(err)
+	}
+	return n
+}
+
+// retag returns the single field in b under another tag (the head is rewritten, the body kept).
+func retag(b []byte, tag int) []byte {
+	ty := int(b[0] & 0x0f)
+	skip := 1
+	if b[0]>>4 == 15 {
+		skip = 2
+	}
+	return append(AppendHead(nil, ty, tag), b[skip:]...)
+}
+
 // ExtraField builds one well-formed field of the given kind under tag.
 func ExtraField(kind string, tag int, r *rand.Rand) []byte {
 	var b []byte
+	for _, dk := range []string{"list", "map", "struct", "mixed"} {
+		var depth int
+		if n, _ := fmt.Sscanf(kind, dk+"-deep-%d", &depth); n == 1 {
+			return deepField(dk, tag, depth, r)
+		}
+	}
 	switch kind {
 	case "zero":
 		return AppendIntWidth(b, 0, TZero, tag)
